@@ -29,7 +29,11 @@ ASSUMPTIONS = [
 TRUSTED = ["recording stub pool / queue wrapper in the L1 driver", "stub executors and fake instances in the L2 driver",
            "lib/dispatchcloud/test StubDriver/StubVM/Queue as the environment of the e2e runs"]
 
+E2E_ENV = {"ARVADOS_API_HOST": "localhost:9"}
+
 DRIVERS = {
+    "e2e": {"kind": "gotest", "pkg": "lib/dispatchcloud", "test": "TestVerifC14", "min_chunk": 1, "shards": 6,
+            "isolate": True, "case_timeout": 120, "timeout": 1500, "env": E2E_ENV},
     "l1": {"kind": "gotest", "pkg": "lib/dispatchcloud/scheduler", "test": "TestVerifC14", "min_chunk": 400},
     "l2": {"kind": "gotest", "pkg": "lib/dispatchcloud/worker", "test": "TestVerifC14", "min_chunk": 100,
            "isolate": True, "case_timeout": 60},
@@ -40,7 +44,7 @@ STATES = "QLRCXO"
 
 def channel(case):
     op = case.split(" ", 1)[0]
-    if op in ("rq", "sy", "la"):
+    if op in ("rq", "sy", "la", "fs"):
         return "l1"
     if op == "pl":
         return "l2"
@@ -241,8 +245,54 @@ def _gen_pl(rng, n):
     return out
 
 
+def _gen_fs(rng, n):
+    """fixStaleLocks + two passes after a restart; distinct priorities; containers with a process on
+    the still-unprobed instance are only ones whose API state is Running/Complete/Cancelled or that
+    are Locked while a worker is Unknown (inside A1; the A1 escape is the corpus witness of F11)."""
+    out = []
+    for _ in range(n):
+        k = rng.choice([1, 2, 2, 3, 3])
+        uuids = rng.sample(range(1, 7), k)
+        prios = rng.sample(range(1, 9), k)
+        ents = [(u, rng.choice("QQLLLRCX"), p, rng.choice([1, 1, 2])) for u, p in zip(uuids, prios)]
+        unknown = rng.random() < 0.6
+        running = [u for u in uuids if rng.random() < 0.25]
+        # processes on the unprobed instance: never of a container that can be (re)started
+        hidden = [e[0] for e in ents if e[0] not in running and e[1] in "RCX" and rng.random() < 0.5] if unknown else []
+        unalloc = [(t, rng.choice([0, 1, 2])) for t in (1, 2)]
+        script = "".join(rng.choice("01") for _ in range(rng.choice([4, 8, 12])))
+        out.append("fs %s %s %s %d %s %s" % (
+            _j("%d:%s:%d:%d" % e for e in ents), _j(map(str, running)), _j(map(str, hidden)), unknown,
+            _j("%d:%d" % kv for kv in unalloc), script))
+    return out
+
+
+def _gen_e2e(rng, tier):
+    """Randomized fault scenarios on the stub cloud (real scheduler + pool + test.Queue + StubDriver)."""
+    out = []
+    n_scen = 10 if tier == "quick" else 72
+    for k in range(n_scen):
+        big = tier != "quick" and k % 6 == 0
+        n = rng.choice([300, 500]) if big else rng.choice([50, 60, 80, 100, 150])
+        p = {
+            "seed": rng.randrange(1, 10 ** 6), "n": n,
+            "restarts": rng.choice([0, 1, 1, 2]),
+            "quota": rng.choice([0, 0, 0, 12, 25]),
+            "cancels": rng.choice([0, 3, 8]), "prio0": rng.choice([0, 0, 3]),
+            "holds": rng.choice([0, 0, 2]), "kills": rng.choice([0, 0, 2]),
+            "crash": rng.choice([0, 10, 30]), "deadlock": rng.choice([0, 10]),
+            "destroyerr": rng.choice([0, 10, 40]),
+            "broken": rng.choice([0, 0, 7]), "missing": rng.choice([0, 0, 7]), "reportbroken": rng.choice([0, 0, 7]),
+            "stale": 3000, "dur": 20000 if big else 9000,
+        }
+        out.append("e2e " + " ".join("%s=%d" % kv for kv in p.items()))
+    return out
+
+
 def generate(rng, tier):
     cases = []
+    cases += _gen_e2e(rng, tier)
+    cases += _gen_fs(rng, 400 if tier == "quick" else 20000)
     cases += _gen_pl(rng, 1500 if tier == "quick" else 60000)
     cases += _gen_rq_exhaustive(tier, rng)
     cases += _gen_rq_random(rng, 3000 if tier == "quick" else 120000)
@@ -255,6 +305,9 @@ def generate(rng, tier):
 
 def compare(case, impl, model):
     op = case.split(" ", 1)[0]
+    if op == "e2e":
+        # no model prediction for a whole run: the oracle judges the observations
+        return model == "e2e-no-model" and impl.startswith("e2e ")
     if op in ("rq", "pl"):
         return impl in model.split("|")
     return impl == model
@@ -410,6 +463,49 @@ def _oracle_pl(f, impl):
     return None
 
 
+def _parse_e2e(impl):
+    head, _, obs = impl.partition(" obs=")
+    kv = dict(x.split("=", 1) for x in head.split(" ")[1:] if "=" in x)
+    starts = []
+    if obs and obs != "-":
+        for tok in obs.split(";"):
+            f = tok.split("/")
+            if len(f) != 8:
+                return kv, None
+            u, inst = f[0].split("@", 1)
+            starts.append({"uuid": int(u), "inst": inst, "others": [] if f[1] == "-" else f[1].split("."),
+                           "snap": f[2], "cache": f[3], "api": f[4], "killfalse": f[5] == "1",
+                           "held": f[6], "matched": f[7] == "1"})
+    return kv, starts
+
+
+def _oracle_e2e(f, impl):
+    if not impl.startswith("e2e "):
+        return "driver could not observe the run: " + impl[:200]
+    kv, starts = _parse_e2e(impl)
+    if starts is None:
+        return "malformed observation list"
+    restarts = int(kv.get("restarts", "0"))
+    if kv.get("bugs", "-") != "-":
+        return "stub cloud reported: " + kv["bugs"][:200]
+    for s in starts:
+        if s["others"]:
+            return (f"crunch-run for container {s['uuid']} started on {s['inst']} while a process of the same "
+                    f"container was alive on {','.join(s['others'])}")
+        if not s["matched"]:
+            if restarts == 0:
+                return f"crunch-run for container {s['uuid']} started without a StartContainer call"
+            continue   # start command of the previous dispatcher process, still in flight at the restart
+        if not s["snap"].startswith("L") or int(s["snap"][1:]) < 1:
+            return (f"container {s['uuid']} started although the scheduler's queue record says state/priority "
+                    f"{s['snap']}")
+        if not s["killfalse"]:
+            return f"container {s['uuid']} started without first ruling out a lingering process"
+        if s["held"] in ("h", "d"):
+            return f"container {s['uuid']} started on instance {s['inst']} which was put on hold/drain before"
+    return None
+
+
 def oracle(case, impl):
     """Property text on implementation output only."""
     f = case.split(" ")
@@ -425,6 +521,36 @@ def oracle(case, impl):
         return _oracle_la(f, impl)
     if f[0] == "pl":
         return _oracle_pl(f, impl)
+    if f[0] == "fs":
+        if ";double=" not in impl:
+            return "driver could not observe the passes: " + impl[:200]
+        d = impl.rsplit(";double=", 1)[1]
+        if d != "-":
+            return f"container(s) {d} started while a process of the same container is alive on another instance"
+        return None
+    if f[0] == "e2e":
+        return _oracle_e2e(f, impl)
+    return None
+
+
+def finding_of(case, impl, why):
+    """F11: a second start of a container whose first process lives on an instance that has not been
+    probed since the last dispatcher restart (assumption A1 of C14_mutual_exclusion)."""
+    f = case.split(" ")
+    if not why or "alive on" not in why and "same container is alive" not in why:
+        return None
+    if f[0] == "fs":
+        # by construction of the op the first process is on the Unknown/unprobed instance
+        hidden = set(_split(f[3]))
+        d = impl.rsplit(";double=", 1)[1]
+        return "F11" if d != "-" and set(d.split(",")) <= hidden else None
+    if f[0] == "e2e":
+        kv, starts = _parse_e2e(impl)
+        if not starts or int(kv.get("restarts", "0")) == 0:
+            return None
+        dbl = [s for s in starts if s["others"]]
+        if dbl and all(all(o.endswith("*") for o in s["others"]) for s in dbl):
+            return "F11"
     return None
 
 
@@ -436,6 +562,11 @@ def nontrivial_key(case, impl):
         return case if "0" in impl.split(";")[0] else None
     if f[0] == "pl":
         return case if impl.count(";") == 2 else None
+    if f[0] == "fs":
+        return case if re.search(r"(st|qu|pk)\d", impl) else None
+    if f[0] == "e2e":
+        m = re.search(r"starts=(\d+)", impl or "")
+        return case if m and int(m.group(1)) > 0 else None
     return case
 
 
@@ -455,6 +586,17 @@ def describe(cases, impl):
                 d["rq_starts"] += len(re.findall(r"\bst\d", r))
                 d["rq_locks"] += len(re.findall(r"\bql\d", r))
                 d["rq_overquota"] += 1 if "aq=1" in r else 0
+        elif f[0] == "e2e" and r and r.startswith("e2e "):
+            kv, starts = _parse_e2e(r)
+            e = d.setdefault("e2e", {"runs": 0, "containers": 0, "crunch_run_starts": 0, "StartContainer_calls": 0,
+                                     "restarts": 0, "vms": 0, "finished": 0})
+            e["runs"] += 1
+            e["containers"] += int(kv.get("done", "0/0").split("/")[1])
+            e["finished"] += int(kv.get("done", "0/0").split("/")[0])
+            e["crunch_run_starts"] += int(kv.get("starts", 0))
+            e["StartContainer_calls"] += int(kv.get("calls", 0))
+            e["restarts"] += int(kv.get("restarts", 0))
+            e["vms"] += int(kv.get("vms", 0))
         elif f[0] == "sy" and r:
             for tag in ("qc", "qu", "pk", "qf"):
                 d["sy_actions"][tag] = d["sy_actions"].get(tag, 0) + len(re.findall(tag + r"\d", r))
